@@ -277,6 +277,15 @@ class Builtins(BuiltinCalls, ContainerCalls):
         seq = self.I.maybe_seq(container, state)
         if seq is not None and seq.length.hi == 0:
             tv = False
+        elif seq is not None and seq.fixed is not None and tv is None:
+            # a display of classes / constants: membership is decided element by element
+            if isinstance(item, ClassV) and all(isinstance(x, ClassV) for x in seq.fixed) and not item.prov:
+                tv = any(x.ci is item.ci and x.ext == item.ext for x in seq.fixed)
+            else:
+                ck = _ckey(item)
+                cks = [_ckey(x) for x in seq.fixed]
+                if ck is not None and all(k is not None for k in cks):
+                    tv = ck in cks
         if tv is not None and negate:
             tv = not tv
         return Bool(tv, prov)
